@@ -30,8 +30,11 @@ public:
   USING_STD_FEATURES;
   ALLOW_STD_FEATURE(MULTIOBJ, true)
   ArrayRef<double> GetObjectiveValues() override;
-  void ObjPriorities(ArrayRef<int>) override {}
-  void ObjWeights(ArrayRef<double>) override {}
+  void ObjPriorities(ArrayRef<int> p) override;     // logged as {"ev":"objpriorities","v":[...]}
+  void ObjWeights(ArrayRef<double> w) override;     // logged as {"ev":"objweights","v":[...]}
+  /// alternative solutions: with sol:stub / sol:count, Solve() reports env RECSOLVER_NSOL (default 0)
+  /// intermediate solutions (empty vectors, or zero vectors if env RECSOLVER_NSOL_VECTORS is set; objective value = index), each logged as {"ev":"altsol","i":k}
+  ALLOW_STD_FEATURE(MULTISOL, true)
   void ObjAbsTol(ArrayRef<double>) override {}
   void ObjRelTol(ArrayRef<double>) override {}
   ALLOW_STD_FEATURE(BASIS, true)
